@@ -1113,3 +1113,157 @@ def global_name(self, ctx, module, name):
 
 
 Engine.global_name = global_name
+
+
+# ---------------------------------------------------------------------------------------------------- the parser funnel
+ASSUMED.update({
+    "parsimonious.Grammar.parse": "Grammar.parse(text) returns a parse tree or raises parsimonious.ParseError (whose "
+                                  "line() is a positive integer); nothing else",
+    "parsimonious.NodeVisitor.visit": "NodeVisitor.visit(tree) calls the visit_<rule> methods; an exception raised by a "
+                                      "visitor leaves visit() unchanged if its class is listed in unwrapped_exceptions "
+                                      "(pydsdl: Error, SystemError, MemoryError, SystemExit) and wrapped into "
+                                      "parsimonious.VisitationError otherwise (ghost flag visitor_crashed); "
+                                      "VisitationError.original_class.line() does not return (TypeError)",
+})
+VISITOR_CRASHED = z3.Bool("ghost!visitor_crashed")       # some visit_* method raised a non-Error exception
+VISITOR_INTERNAL = z3.Bool("ghost!visitor_raised_internal_error")  # some visit_* method raised InternalError itself
+
+
+class ExtObj:
+    """An object of a third-party class of which only an assumed contract is known."""
+
+    def __init__(self, what):
+        self.what = what
+
+    def __repr__(self):
+        return "<ext %s>" % self.what
+
+
+class _GrammarK(Kind):
+    def build(self, ctx, mk):
+        return ExtObj("Grammar")
+
+    def sort(self):
+        raise EngineLimit("no sort")
+
+
+GrammarK = _GrammarK()
+
+_orig_lib_getattr2 = Lib.getattr
+
+
+def lib_getattr2(self, ctx, o, name):
+    if (isinstance(o, V.ExtModule) or (isinstance(o, V.Builtin) and o.bound is None)) and o.name == "parsimonious" \
+            and name in ("ParseError", "VisitationError"):
+        return V.ExtClass(name)
+    if isinstance(o, ExtObj):
+        return V.Builtin("method." + name, bound=o)
+    return _orig_lib_getattr2(self, ctx, o, name)
+
+
+Lib.getattr = lib_getattr2
+
+
+def m_other_parse(self, ctx, o, text):
+    if isinstance(o, ExtObj) and o.what == "Grammar":
+        if ctx.choose(2) == 1:
+            raise PyRaise(ExcVal(V.ExtClass("ParseError")))
+        return ExtObj("parse tree")
+    raise EngineLimit("parse of %r" % (o,))
+
+
+def m_other_visit(self, ctx, o, tree):
+    """Assumed contract of NodeVisitor.visit specialised to _ParseTreeProcessor (see ASSUMED)."""
+    if not (isinstance(o, Obj) and o.cls.name == "_ParseTreeProcessor"):
+        raise EngineLimit("visit of %r" % (o,))
+    # visiting advances the line counter (visit_end_of_line); it stays positive
+    if o.fields is not None:
+        n = ctx.fresh("line", z3.IntSort())
+        ctx.assume(n >= 1)
+        o.fields["_current_line_number"] = n
+    k = ctx.choose(4)
+    if k == 1:
+        exc = ExcVal(self.e.exc_class("InvalidDefinitionError"))
+        raise PyRaise(exc)
+    if k == 2:
+        ctx.assume(VISITOR_INTERNAL)
+        raise PyRaise(ExcVal(self.e.exc_class("InternalError")))
+    if k == 3:
+        ctx.assume(VISITOR_CRASHED)
+        raise PyRaise(ExcVal(V.ExtClass("VisitationError")))
+    return None
+
+
+Lib.m_other_parse = m_other_parse
+Lib.m_other_visit = m_other_visit
+
+_orig_engine_getattr = Engine.getattr
+
+
+def engine_getattr(self, ctx, o, name, from_spec=False):
+    if isinstance(o, Obj) and name == "visit" and o.cls.name == "_ParseTreeProcessor":
+        return V.Builtin("method.visit", bound=o)
+    return _orig_engine_getattr(self, ctx, o, name, from_spec)
+
+
+Engine.getattr = engine_getattr
+
+_orig_exc_attr = Lib.exc_attr
+
+
+def _error_init_field(self, ctx, exc, name):
+    """`_path` / `_line` of a pydsdl Error: from the constructor arguments when the exception was raised by code on this
+    path, an unknown optional value when it came out of a callee's contract."""
+    from .frontend import ClassInfo
+
+    if not isinstance(exc.cls, ClassInfo):
+        raise EngineLimit("exception attribute %s" % name)
+    pos = {"_path": 1, "_line": 2}[name]
+    kw = name[1:]
+    if exc.args or exc.kwargs:
+        v = exc.kwargs.get(kw, exc.args[pos] if len(exc.args) > pos else None)
+    else:
+        kind, _ = self.e.field_kind(exc.cls, name)
+        if kind is None:
+            raise EngineLimit("no field kind for %s.%s" % (exc.cls.name, name))
+        v = ctx.fresh_kind("exc." + name, kind)
+    exc.fields[name] = v
+    return v
+
+
+def exc_attr(self, ctx, exc, name):
+    if name in exc.fields:
+        return exc.fields[name]
+    if name in ("_path", "_line"):
+        return _error_init_field(self, ctx, exc, name)
+    if name == "line" and isinstance(exc.cls, V.ExtClass) and exc.cls.name == "ParseError":
+        return V.Builtin("exc.line", bound=exc)
+    if name == "original_class":
+        return ExtObj("original_class")
+    return _orig_exc_attr(self, ctx, exc, name)
+
+
+Lib.exc_attr = exc_attr
+
+
+def m_other_line(self, ctx, o):
+    raise self.raise_ext("TypeError", "VisitationError.original_class.line() is an unbound method call")
+
+
+Lib.m_other_line = m_other_line
+
+_orig_call_exc_method = Lib.call_exc_method
+
+
+def call_exc_method(self, ctx, exc, name, args, kwargs):
+    if name == "line":
+        n = ctx.fresh("parse_error_line", z3.IntSort())
+        ctx.assume(n >= 1)
+        return n
+    m = exc.cls.lookup(name) if hasattr(exc.cls, "lookup") else None
+    if m is not None:
+        return self.e.inline_call(ctx, m, [exc] + list(args), kwargs, None)
+    return _orig_call_exc_method(self, ctx, exc, name, args, kwargs)
+
+
+Lib.call_exc_method = call_exc_method
